@@ -92,6 +92,7 @@ def applyFact (nl : NodeLine) (kv : String) : NodeLine :=
       | [a, b] => { nl with e := { e with xattrs := e.xattrs ++ [((unhex a).getD [], if b == "!" then none else unhex b)] } }
       | _ => nl
     else if k == "real" then { nl with e := { e with absPath := unhex v } }
+    else if k == "gitign" then { nl with e := { e with gitIgnored := v == "1" } }
     else if k == "target" then { nl with e := { e with linkTarget := unhex v } }
     else if k == "unlistable" then { nl with unlistable := v == "1" }
     else if k == "unreadable" then { nl with e := { e with unreadable := v == "1" } }
